@@ -831,6 +831,7 @@ static int parse_data(vnacal_load_state_t *vlsp, const vnacal_layout_t *vlp,
 		*item);
 	double frequency = -1.0;
 
+	(void)memset((void *)matrices, 0, sizeof(matrices));
 	if (child->type != YAML_MAPPING_NODE) {
 	    _vnacal_error(vcp, VNAERR_SYNTAX, "%s (line %ld) error: "
 		    "expected mapping for \"data\" entry",
